@@ -177,6 +177,9 @@ pub struct MacroDefinition {
 /// The maximum nesting depth of macro invocations
 const MAX_MACRO_DEPTH: usize = 32;
 
+/// The maximum nesting depth of imports (a file importing a file importing a file ...)
+const MAX_IMPORT_DEPTH: usize = 64;
+
 /// The maximum size of a bank (16 MiB; a bank is padded to its size in memory before it is written)
 const MAX_BANK_SIZE: i64 = 0x100_0000;
 
@@ -786,6 +789,18 @@ impl CodegenContext {
                             .with_message(format!(
                                 "circular import: \"{}\"",
                                 filename.uninterpolated_text()
+                            ))
+                            .with_labels(vec![filename.span().to_label()])
+                            .into());
+                    }
+
+                    // Imports are emitted recursively, so a very long chain of files importing each other would
+                    // overflow the stack as well
+                    if self.import_stack.len() >= MAX_IMPORT_DEPTH {
+                        return Err(Diagnostic::error()
+                            .with_message(format!(
+                                "imports are nested more than {} files deep",
+                                MAX_IMPORT_DEPTH
                             ))
                             .with_labels(vec![filename.span().to_label()])
                             .into());
